@@ -139,6 +139,12 @@ fn check_early_stop<PP: Props + ?Sized>(p: &PP, len: usize, nth: u32, pre: &str,
     let mut ns: Vec<usize> = (1..=len.min(6)).collect();
     ns.push(len);
     ns.push(len + 1);
+    // around the usual size thresholds
+    for t in [8usize, 15, 16, 17, 31, 32, 33] {
+        if t <= len {
+            ns.push(t);
+        }
+    }
     if len > 0 {
         ns.push(1 + vcore::pick(nth, len));
         ns.push(len - 1);
